@@ -197,8 +197,11 @@ def blob_undo_scenario(rng, steps, tid):
         tid += GAP
         return len(steps) - 1
     n = 3000 + len(steps)
-    add([['b', oid, mkblobdata(n).hex(), (b'first blob revision %d' % n).hex()]])
-    mod = add([['b', oid, mkblobdata(n + 1).hex(), (b'second blob revision %d' % n).hex()]])
+    # (a blob record FOLLOWED by plain records of other objects in the same transaction)
+    add([['b', oid, mkblobdata(n).hex(), (b'first blob revision %d' % n).hex()],
+         ['s', 12, mkdata(12, n, rng).hex()], ['s', 13, mkdata(13, n, rng).hex()]])
+    mod = add([['b', oid, mkblobdata(n + 1).hex(), (b'second blob revision %d' % n).hex()]] +
+              ([['s', 12, mkdata(12, n + 1, rng).hex()]] if rng.random() < 0.5 else []))
     last = add([['u', mod]])
     r = rng.random()
     if r < 0.35:
@@ -451,14 +454,14 @@ def query_dump(st, dump, blobs=False):
                 out['loadBefore %s %s' % (o, b.hex())] = q(lb)
             out['loadSerial %s %s' % (o, th)] = q(lambda: st.loadSerial(oid, tb).hex())
     if blobs:
-        from ZODB.blob import is_blob_record
+        # the blob file of EVERY record (oid, tid), blob record or not: the copy must have exactly the
+        # blob files the source has — none missing, none extra (POSKeyError where the source raises)
         for t in dump:
             for r in t[6]:
-                if r[2] is not None and is_blob_record(bytes.fromhex(r[2])):
-                    def lb():
-                        with open(st.loadBlob(bytes.fromhex(r[0]), bytes.fromhex(r[1])), 'rb') as f:
-                            return f.read().hex()
-                    out['blob %s %s' % (r[0], r[1])] = q(lb)
+                def lb():
+                    with open(st.loadBlob(bytes.fromhex(r[0]), bytes.fromhex(r[1])), 'rb') as f:
+                        return f.read().hex()
+                out['blob %s %s' % (r[0], r[1])] = q(lb)
     return out
 
 
